@@ -244,3 +244,80 @@ M('C04','debug-set-swapped','kvstore/debug/debug.go','return s.underlying.Set(ke
 M('C04','debug-iterate-drops-direction','kvstore/debug/debug.go','return s.underlying.Iterate(prefix, kvConsumerFunc, iterDirection...)','return s.underlying.Iterate(prefix, kvConsumerFunc)','fwd/delegates kvstore/debug.debugStore.Iterate')
 M('C04','flushkv-extended-realm-order','kvstore/flushkv/flushkv.go','return s.WithRealm(byteutils.ConcatBytes(s.Realm(), realm))','return s.WithRealm(byteutils.ConcatBytes(realm, s.Realm()))','realm/extended kvstore/flushkv.flushKVStore.WithExtendedRealm')
 M('C04','debug-has-calls-get','kvstore/debug/debug.go','return s.underlying.Has(key)','_, err := s.underlying.Get(key)\n\n\treturn err == nil, nil','fwd/delegates kvstore/debug.debugStore.Has')
+
+# ---------------- C08
+M('C08','wg-add-in-goroutine','kvstore/batch_writer.go','''		bw.writeWg.Add(1)
+		go bw.runBatchWriter()''','''		go func() {
+			bw.writeWg.Add(1)
+			bw.runBatchWriter()
+		}()''','wg/add-before-go')
+M('C08','enqueue-check-then-publish','kvstore/batch_writer.go','''	bw.scheduledCount.Add(1)
+
+	// abort if the BatchWriter has been stopped
+	if !bw.running.Load() {
+		bw.scheduledCount.Add(-1)
+
+		return
+	}
+''','''	// abort if the BatchWriter has been stopped
+	if !bw.running.Load() {
+		return
+	}
+	bw.scheduledCount.Add(1)
+''','publish/announce-then-check')
+M('C08','enqueue-leak-count','kvstore/batch_writer.go','''	if object.BatchWriteScheduled() {
+		bw.scheduledCount.Add(-1)
+
+		return
+	}''','''	if object.BatchWriteScheduled() {
+		return
+	}''','publish/count-balanced')
+M('C08','loop-cond-order','kvstore/batch_writer.go','for bw.running.Load() || bw.scheduledCount.Load() != 0 {','for bw.scheduledCount.Load() != 0 || bw.running.Load() {','publish/writer-loop-cond')
+M('C08','done-before-commit','kvstore/batch_collector.go','''	if err := br.batchedMuts.Commit(); err != nil {
+		return err
+	}
+
+	for i := range br.writtenValuesCounter {
+		br.writtenValues[i].BatchWriteDone()
+	}
+''','''	for i := range br.writtenValuesCounter {
+		br.writtenValues[i].BatchWriteDone()
+	}
+
+	if err := br.batchedMuts.Commit(); err != nil {
+		return err
+	}
+''','collector/done-after-commit')
+M('C08','timeout-arm-no-commit','kvstore/batch_writer.go','''				case <-batchWriterTimeoutTimer.C:
+					// apply the collected mutations
+					if err := batchCollector.Commit(); err != nil {
+						panic(err)
+					}
+
+					return''','''				case <-batchWriterTimeoutTimer.C:
+					return''','collector/typestate')
+M('C08','flush-no-new-collector','kvstore/batch_writer.go','''						batchCollector = newBatchCollector(batchedMutation, &bw.scheduledCount, bw.opts.batchSize)
+					}
+
+				// no elements left''','''						_ = batchedMutation
+					}
+
+				// no elements left''','collector/typestate')
+M('C08','add-no-decrement','kvstore/batch_collector.go','	br.scheduledCount.Add(-1)\n','','collector/add-steps kvstore.BatchCollector.Add scheduledCount.Add(-1)')
+M('C08','stop-no-wait','kvstore/batch_writer.go','''		bw.running.Store(false)
+
+		bw.writeWg.Wait()''','''		bw.running.Store(false)''','stop/clear-then-wait')
+M('C08','stop-no-mutex','kvstore/batch_writer.go','''func (bw *BatchedWriter) StopBatchWriter() {
+	bw.startStopMutex.Lock()
+	if bw.running.Load() {
+		bw.running.Store(false)
+
+		bw.writeWg.Wait()
+	}
+	bw.startStopMutex.Unlock()''','''func (bw *BatchedWriter) StopBatchWriter() {
+	if bw.running.Load() {
+		bw.running.Store(false)
+
+		bw.writeWg.Wait()
+	}''','lock/guarded-by BatchedWriter.running')
+M('C08','done-loop-wrong-bound','kvstore/batch_collector.go','for i := range br.writtenValuesCounter {','for i := range br.writtenValuesCounter - 1 {','collector/done-once-per-slot')
